@@ -69,6 +69,17 @@ def execPrim (toks : List String) : String :=
   | ["slice", n, lo, hi] =>
     (match Rust.sliceExcl (List.range n.toNat!) lo.toInt! hi.toInt! with
      | .ok l => toString l | .panic _ => "PANIC" | .ub _ => "UB")
+  | "iter" :: n :: rest =>
+    -- the specification's cursor over [0, …, n-1] under the same script language
+    let l : List Int := (List.range n.toNat!).map (fun (k : Nat) => (k : Int))
+    let (opToks, finToks) := rest.span (· ≠ ";")
+    let ops := opToks.filterMap parseOp
+    let finp := (finToks.drop 1).head?.bind parseFinPost
+    let f := fun (v : Int) => toString v
+    let (l', outs) := Cursor.run l ops
+    " ".intercalate (outs.map (showOut f) ++ (match finp with
+      | none => []
+      | some (fn, post) => [showOutF f (postFin (fun a b => decide (a < b)) post (Cursor.finish l' fn))]))
   | ["index", n, i] =>
     (match Rust.index (List.range n.toNat!) i.toInt! with
      | .ok v => toString v | .panic _ => "PANIC" | .ub _ => "UB")
